@@ -58,6 +58,7 @@ ae28e34 C03 C03.nullwidth thorough
 550d93b C05 C05.nanbounds
 b76b929 C14 C14.rollback
 13bb510 C05 C05.nanbounds
+8993130 C03 C03.stride
 LIST
 git -C /repo worktree remove --force $WT
 rm -rf /tmp/fixcheck-ev
